@@ -25,7 +25,7 @@ Qed.
 
 Definition zidless_ok (it : item) : Prop :=
   match i_ident it with
-  | IPlain s => is_prio_word s = false /\ datelike10 s = false
+  | IPlain s | IMod s => is_prio_word s = false /\ datelike10 s = false
   | ILong d => is_prio_word d = false /\ datelike10 d = true /\ i_words it <> []
   | _ => False
   end.
@@ -54,7 +54,7 @@ Proof.
   cbn [forallb] in Hs. apply andb_prop in Hs. destruct Hs as [Hsz Hs].
   unfold line_words, prio_words, item_words in Hs. cbn [i_kind i_prio i_ident i_words] in Hs.
   assert (Hk : kind_text k <> []) by (destruct k as [[]|]; discriminate).
-  destruct idn as [s|z0|m z0|d]; try contradiction; cbn [ident_words app map word_text] in *; destruct pr as [p|]; cbn [app] in *.
+  destruct idn as [s|z0|m z0|d|s]; try contradiction; cbn [ident_words app map word_text] in *; destruct pr as [p|]; cbn [app] in *.
   - destruct Hz as (H1 & H2). rewrite add_zid_priority by assumption. rewrite !join_cons2. reflexivity.
   - destruct Hz as (H1 & H2). rewrite add_zid_plain by assumption. rewrite !join_cons2. reflexivity.
   - destruct Hz as (H1 & H2 & H3). destruct ws as [|w ws']; [congruence|]. cbn [map] in *.
@@ -63,6 +63,8 @@ Proof.
     rewrite add_zid_priority_date; try assumption. rewrite !join_cons2. reflexivity.
   - destruct Hz as (H1 & H2 & H3). destruct ws as [|w ws']; [congruence|]. cbn [map] in *.
     rewrite add_zid_replaces_long_date by assumption. rewrite !join_cons2. reflexivity.
+  - destruct Hz as (H1 & H2). rewrite add_zid_priority by assumption. rewrite !join_cons2. reflexivity.
+  - destruct Hz as (H1 & H2). rewrite add_zid_plain by assumption. rewrite !join_cons2. reflexivity.
 Qed.
 
 (* ---- the body the index stores ---- *)
@@ -123,7 +125,7 @@ Qed.
 Theorem index_body_is_file_body today ot op od key line z it :
   zidless_ok it -> z <> [] -> no_ws z = true -> no_space z = true ->
   clean_words (map word_text (item_words it)) -> forallb no_space (map word_text (item_words it)) = true ->
-  (match i_ident it with ILong d => is_long_date_spec d = true | IPlain s => is_long_date_spec s = false | _ => True end) ->
+  (match i_ident it with ILong d => is_long_date_spec d = true | IPlain s | IMod s => is_long_date_spec s = false | _ => True end) ->
   patch_body z (n_body (spec_note today ot op od key line it)) =
   n_body (spec_note today ot op od key line (with_zid z it)).
 Proof.
@@ -132,18 +134,22 @@ Proof.
   rewrite body_is_join by exact Hc.
   assert (Hc' : clean_words (map word_text (item_words (with_zid z (mkItem k pr idn ws))))).
   { unfold with_zid, item_words in *. cbn [i_kind i_prio i_ident i_words ident_words app map word_text] in *.
-    destruct Hc as (Hne & Hall). destruct idn as [s|z0|m z0|d]; try contradiction; cbn [ident_words app map word_text] in *.
+    destruct Hc as (Hne & Hall). destruct idn as [s|z0|m z0|d|s]; try contradiction; cbn [ident_words app map word_text] in *.
     - split; [discriminate|]. constructor; [split; assumption|exact Hall].
-    - split; [discriminate|]. inversion Hall; subst. constructor; [split; assumption|assumption]. }
+    - split; [discriminate|]. inversion Hall; subst. constructor; [split; assumption|assumption].
+    - split; [discriminate|]. constructor; [split; assumption|exact Hall]. }
   rewrite (body_is_join _ Hc').
   unfold with_zid, item_words in *. cbn [i_kind i_prio i_ident i_words] in *.
   unfold patch_body.
-  destruct idn as [s|z0|m z0|d]; try contradiction; cbn [ident_words app map word_text] in *.
+  destruct idn as [s|z0|m z0|d|s]; try contradiction; cbn [ident_words app map word_text] in *.
   - destruct Hc as (_ & Hall). inversion Hall as [|? ? (Hs1 & Hs2) _]; subst.
     rewrite lstrip_word_first by assumption. change (ch " ") with sp. rewrite split_join by (try discriminate; exact Hs).
     rewrite Hd. rewrite join_cons2. reflexivity.
   - destruct Hz as (_ & _ & Hw). destruct ws as [|w ws']; [congruence|]. cbn [map] in *.
     destruct Hc as (_ & Hall). inversion Hall as [|? ? (Hs1 & Hs2) _]; subst.
+    rewrite lstrip_word_first by assumption. change (ch " ") with sp. rewrite split_join by (try discriminate; exact Hs).
+    rewrite Hd. rewrite join_cons2. reflexivity.
+  - destruct Hc as (_ & Hall). inversion Hall as [|? ? (Hs1 & Hs2) _]; subst.
     rewrite lstrip_word_first by assumption. change (ch " ") with sp. rewrite split_join by (try discriminate; exact Hs).
     rewrite Hd. rewrite join_cons2. reflexivity.
 Qed.
@@ -177,7 +183,7 @@ Proof.
   cbn [forallb] in Hs. apply andb_prop in Hs. destruct Hs as [Hsd Hs].
   unfold line_words, prio_words, item_words in Hs. cbn [i_kind i_prio i_ident i_words] in Hs.
   assert (Hk : kind_text k <> []) by (destruct k as [[]|]; discriminate).
-  destruct idn as [s|z|m z|dd]; try contradiction; cbn [ident_words app map word_text] in *; destruct pr as [p|]; cbn [app] in *;
+  destruct idn as [s|z|m z|dd|s]; try contradiction; cbn [ident_words app map word_text] in *; destruct pr as [p|]; cbn [app] in *;
     destruct Hz as (H1 & H2).
   - rewrite mdate_prio by assumption. rewrite H2. rewrite !join_cons2. reflexivity.
   - rewrite mdate_inserted by assumption. rewrite !join_cons2. reflexivity.
